@@ -5,6 +5,11 @@ import json, subprocess
 HOOK_COMMITS = ["e830588", "a6f2056", "d667224"]
 
 CHECKS = {
+ "C19": dict(
+  technique="runtime oracle: online reference state machine (exact rational arithmetic) over episodes driven with a virtual clock hook",
+  text="Exploration: ~1.7e6 (quick) / ~2.7e7 (thorough) judged per-segment reports from episodes of timestamped segments whose arrival times are injected through the clock hook: every integer rate 0..1600 Hz x 13 intervals at the 25 ms / 100 ms / 600 s boundaries x 8 base timestamps (incl. wrap), minimum-tick and grid-boundary cases, backward movement, and seeded interleaved client/server sequences. Each report or absence of one is compared with the documented estimator restated as a state machine. Held = no segment's report differed.",
+  note="Needs hook H1 (injectable clock). The grid, bounds and the backward-movement rule are restated from the crate's documentation; float/rational boundary agreement argued in c19.rs.",
+  design="6 C19"),
  "C03": dict(
   technique="runtime oracle: reference-model monitor on the packet path (model-generated segments, exhaustive per-field sweeps + seeded random headers), deviation models for listed known findings",
   text="Exploration: ~8e6 (quick) / ~4.7e7 (thorough) generated IPv4/IPv6 segments in Ethernet, raw-IP and loopback framing are analysed by HuginnNetTcp through its private per-packet path and every reported field, the role, the MTU and the link label are compared with a reference computed from the generating model. Component domains named by the property are enumerated completely (all flag bytes, TTLs, header-bit combinations, all 65536 windows per MSS/timestamp/IP-version choice, all option sequences of up to 4 options, every (kind,length) single option). Held = every execution either matched the reference or matched exactly one of the four listed known-finding deviations.",
